@@ -153,7 +153,12 @@ def run(prop, seed, tier):
             ('M dynamic x n\n', 'u32 n; u16 x<@n>; u8 y; u32 v_len; u8 v<4#v_len>;', True),
             ('M type y u64\n', 'u32 n; u16 x[3]; u64 y; u32 v_len; u8 v<4#v_len>;', True),
             ('M remove y\n', 'u32 n; u16 x[3]; u32 v_len; u8 v<4#v_len>;', True),
-            ('M insert 1 z F16\n', 'u32 n; F16 z; u16 x[3]; u8 y; u32 v_len; u8 v<4#v_len>;', True),
+            # the FIRST member is a member like any other (index 0)
+            ('M remove n\n', 'u16 x[3]; u8 y; u32 v_len; u8 v<4#v_len>;', True),
+            ('M type n u16\n', 'u16 n; u16 x[3]; u8 y; u32 v_len; u8 v<4#v_len>;', True),
+            ('M rename n nn\n', 'u32 nn; u16 x[3]; u8 y; u32 v_len; u8 v<4#v_len>;', True),
+            ('M insert 0 z u8\n', 'u8 z; u32 n; u16 x[3]; u8 y; u32 v_len; u8 v<4#v_len>;', True),
+            ('M insert 1 z F16\n','u32 n; F16 z; u16 x[3]; u8 y; u32 v_len; u8 v<4#v_len>;', True),
             ('M insert 999 z u8\n', 'u32 n; u16 x[3]; u8 y; u32 v_len; u8 v<4#v_len>; u8 z;', True),
             ('M rename y yy\n', 'u32 n; u16 x[3]; u8 yy; u32 v_len; u8 v<4#v_len>;', True),
             ('Absent static v 2\nM type y u16\n', 'u32 n; u16 x[3]; u16 y; u32 v_len; u8 v<4#v_len>;', True),
